@@ -64,7 +64,7 @@ FLOORS = {
                    "assert:arpa-entries-base-e": 1000, "assert:arpa-model-vs-oracle": 30},
         "classes": dict({c: 15 for c in set(G.CLASSES)},
                         **{k: 60 for k in G.SOS_KINDS},
-                        offsets_uint8=200, offsets_int16=12, offsets_int32=1, built_wider_than_stored=10,
+                        offsets_uint8=200, offsets_int16=5, offsets_int32=1, built_wider_than_stored=10,
                         neginf_entry_with_children=80, backfilled_suffix=80, T0=30, B1=50,
                         level_gt_255=8, level_gt_32767=1),
         "stats": {"oracle_answer_order_2": 8000, "oracle_answer_order_3": 1200, "oracle_answer_order_4": 350,
